@@ -1,4 +1,6 @@
-(** C20 — Readiness wakes exactly the waiting coroutine, promptly. Statements only. *)
+(** C20 — Readiness wakes exactly the waiting coroutine, promptly. Statements only.
+    Histories: waits and timed-out waits for readability ([false]) or writability ([true]), read and
+    write readiness, deletion of both interests or of one, hooked close, reuse of the number. *)
 From OCV Require Import Base.Prelude Net.Selector Net.Token Net.TokenOracle Net.TokenProofs.
 Open Scope Z_scope.
 
@@ -6,12 +8,32 @@ Open Scope Z_scope.
 Theorem C20_roundtrip : forall t, 0 <= t < 2 ^ 64 -> decode (encode t) = t.
 Proof. exact roundtrip. Qed.
 
-(** every history (any length, any 64-bit ids, any descriptors, any order of waits, time-outs,
-    readiness and deletions) in which a coroutine and a descriptor stay paired between deletions:
-    each readiness event resumes, on the event, exactly the coroutines waiting on that descriptor *)
+(** every history (any length, any 64-bit ids, any descriptors, any order of waits for either
+    direction, time-outs, readiness of either direction, deletions, closes and reuses of descriptor
+    numbers) outside the two recorded findings ([no_defect]: a coroutine and a descriptor stay paired
+    until the descriptor's registration is deleted, readiness of one direction does not arrive while
+    a coroutine waits for the other, one direction is deleted alone only if it is the only one):
+    each readiness event resumes, on the event, exactly the coroutines waiting for that direction of
+    that descriptor, and a direction the OS delivers nothing for has no waiter *)
 Theorem C20_holds_outside : forall nfd ops,
-  wf_C20 nfd ops = true -> paired ops = true -> ok_C20 ops (run_C20 nfd ops) = true.
+  wf_C20 nfd ops = true -> no_defect ops = true -> ok_C20 ops (run_C20 nfd ops) = true.
 Proof. exact holds_outside. Qed.
+
+(** ... and on those histories the model raises neither finding's ghost tag: the tags mark the
+    misbehaving branches only *)
+Theorem C20_no_tag_outside : forall nfd ops,
+  wf_C20 nfd ops = true -> no_defect ops = true -> fst (tags_C20 nfd ops) = [].
+Proof. exact no_tag_outside. Qed.
+
+(** after ANY history (ill-formed ones and the recorded findings included): the descriptor number
+    is closed through the runtime and handed out again; a coroutine (an identity not used before)
+    that waits for either direction of the new socket gets exactly its interest and its own token
+    registered with the OS, and the readiness event resumes it and nobody else *)
+Theorem C20_reuse_wakes : forall nfd ops fd d c,
+  0 <= c < 2 ^ 64 -> fresh c ops = true ->
+  exists b, run_C20 nfd (ops ++ [Close fd; Reopen fd; Wait d c fd; Ready d fd])
+            = run_C20 nfd ops ++ [OClose b; OReopen; OReg true (Some (negb d, d, c)); OEvent c true [c]].
+Proof. exact reuse_wakes. Qed.
 
 (** known finding: a registration (and its token) outlives the wait that made it *)
 Theorem C20_refuted_registration_outlives_wait :
@@ -20,35 +42,61 @@ Proof. exact refuted_missed. Qed.
 
 Theorem C20_refuted_registration_outlives_wait_cross :
   exists nfd ops, wf_C20 nfd ops = true /\ ok_C20 ops (run_C20 nfd ops) = false
-  /\ run_C20 nfd ops = [ORegT true (Some 6297203254532200539) true; OReg true (Some 6297203254532200539);
+  /\ run_C20 nfd ops = [ORegT true (Some (true, false, 6297203254532200539)) true;
+                        OReg true (Some (true, false, 6297203254532200539));
                         OEvent 6297203254532200539 true [6297203254532200539]].
 Proof. exact refuted_cross. Qed.
 
-(** what the oracle's readiness clause says: a waiter on the descriptor is resumed by the event ... *)
-Theorem C20_wake_hits : forall t fd tok hit woken t' c,
-  ok_step t (Ready fd) (OEvent tok hit woken) = (true, t') -> In c (waiters_on fd t) -> In c woken.
+(** known finding: the OS holds one token per descriptor; two coroutines waiting for the two
+    directions of one descriptor: write readiness resumes the reader, not the writer *)
+Theorem C20_refuted_one_token_per_descriptor :
+  exists nfd ops, wf_C20 nfd ops = true /\ ok_C20 ops (run_C20 nfd ops) = false
+  /\ run_C20 nfd ops = [OReg true (Some (false, true, 13712591878437130464));
+                        OReg true (Some (true, true, 440535360));
+                        OEvent 440535360 true [440535360]]
+  /\ fst (tags_C20 nfd ops) = [TagOneToken].
+Proof. exact refuted_one_token. Qed.
+
+(** what the oracle's readiness clause says: a coroutine waiting for that direction of the
+    descriptor is resumed by the event ... *)
+Theorem C20_wake_hits : forall t d fd tok hit woken t' c,
+  ok_step t (Ready d fd) (OEvent tok hit woken) = (true, t') -> In (c, (fd, d)) t -> In c woken.
 Proof. exact wake_hits. Qed.
 
-(** ... and nobody else is *)
-Theorem C20_no_cross_wake : forall t fd tok hit woken t' c,
-  ok_step t (Ready fd) (OEvent tok hit woken) = (true, t') -> In c woken -> In c (waiters_on fd t).
+(** ... and nobody else is: nobody waiting for another descriptor, nobody waiting for the other
+    direction of this one *)
+Theorem C20_no_cross_wake : forall t d fd tok hit woken t' c,
+  ok_step t (Ready d fd) (OEvent tok hit woken) = (true, t') -> In c woken ->
+  exists f w, In (c, (f, w)) t /\ f = fd /\ w = d.
 Proof. exact no_cross_wake. Qed.
 
+(** when the OS delivers nothing for a direction of a descriptor, the oracle accepts only if nobody
+    waits for it (such a waiter would be resumed by its wait timeout) *)
+Theorem C20_unregistered_direction_has_no_waiter : forall t d fd t' c,
+  ok_step t (Ready d fd) ONoEvent = (true, t') -> ~ In (c, (fd, d)) t.
+Proof. exact no_event_no_waiter. Qed.
+
 Example C20_nonvacuous :
-  let ops := [Wait 15128819530526934229 0; Wait 440535360 1; Ready 0; WaitT 15128819530526934229 0;
-              Ready 1; Del 0; Wait 4567369280270323402 0; Ready 0; Ready 2] in
-  wf_C20 3 ops = true /\ paired ops = true
-  /\ run_C20 3 ops =
-     [OReg true (Some 15128819530526934229); OReg true (Some 440535360);
-      OEvent 15128819530526934229 true [15128819530526934229];
-      ORegT true (Some 15128819530526934229) true;
-      OEvent 440535360 true [440535360]; ODel true; OReg true (Some 4567369280270323402);
-      OEvent 4567369280270323402 true [4567369280270323402]; ONoEvent].
+  let a := 15128819530526934229 in let b := 440535360 in
+  let ops := [Wait true a 1; Wait false b 2; Ready true 1; WaitT false a 1; Ready false 2;
+              Close 1; Reopen 1; Wait true a 1; Ready true 1; Wait false a 1; Ready false 1;
+              DelDir false 2; DelDir true 2; Ready false 3] in
+  wf_C20 4 ops = true /\ no_defect ops = true
+  /\ run_C20 4 ops =
+     [OReg true (Some (false, true, a)); OReg true (Some (true, false, b)); OEvent a true [a];
+      ORegT true (Some (true, true, a)) true; OEvent b true [b];
+      OClose true; OReopen; OReg true (Some (false, true, a)); OEvent a true [a];
+      OReg true (Some (true, true, a)); OEvent a true [a];
+      ODel true None; ODel true None; ONoEvent].
 Proof. repeat split; vm_compute; reflexivity. Qed.
 
 Print Assumptions C20_roundtrip.
 Print Assumptions C20_holds_outside.
+Print Assumptions C20_no_tag_outside.
+Print Assumptions C20_reuse_wakes.
 Print Assumptions C20_refuted_registration_outlives_wait.
 Print Assumptions C20_refuted_registration_outlives_wait_cross.
+Print Assumptions C20_refuted_one_token_per_descriptor.
 Print Assumptions C20_wake_hits.
 Print Assumptions C20_no_cross_wake.
+Print Assumptions C20_unregistered_direction_has_no_waiter.
